@@ -14,6 +14,9 @@
  *       getnext walk + get of every key of the history through the original handle (`o`) and
  *       through the copy (`c`); the observation through the copy must not change a byte of it;
  *   (4) every 32nd operation continues the history through the copy (the original is released).
+ * Tables of more than MIDSLOTS (64) slots: (3) and (4) after init / walk / size and every 4th operation,
+ * above HUGESLOTS (thorough tier: slot indexes beyond 2^15 / 2^16) every 256th; `o - c -` otherwise.
+ * (1) and (2) after every operation always.
  * A watchdog (alarm, 5 s per operation) turns an endless loop into a dead harness.
  */
 #include "common.h"
@@ -23,6 +26,8 @@
 #define GUARDSZ 4096
 #define PAT 0xA5
 #define SMALLCAP 12
+#define MIDSLOTS 64
+#define HUGESLOTS 20000
 
 typedef struct { unsigned char *base; size_t off, memsize, gfront, gback; unsigned char *mem; unsigned char *ref; } region_t;
 
@@ -87,6 +92,29 @@ static void sb_hex(sb_t *b, const void *p, size_t n) {
 }
 static void sb_int(sb_t *b, long long v) { char t[32]; snprintf(t, sizeof t, "%lld", v); sb_puts(b, t); }
 
+/* the key name handed out by getnext: `namesize` bytes and a terminating NUL (the documented
+ * traversal prints it with %s). Under ASan the block is tested before it is read, so that a block
+ * shorter than the reported size is a statement in the transcript instead of a dead harness. */
+#if defined(__SANITIZE_ADDRESS__)
+#include <sanitizer/asan_interface.h>
+#define NAME_POISON(p, n) __asan_region_is_poisoned((void *) (p), (n))
+#else
+#define NAME_POISON(p, n) NULL
+#endif
+static void sb_name(sb_t *b, const char *name, size_t namesize) {
+    const char *bad = NAME_POISON(name, namesize);
+    if (bad) {
+        size_t have = (size_t) (bad - name);
+        sb_hex(b, name, have);
+        sb_puts(b, "!short-name-block:"); sb_int(b, (long long) have); sb_puts(b, "/"); sb_int(b, (long long) namesize);
+        return;
+    }
+    sb_hex(b, name, namesize);
+    /* a C string: a NUL inside the name or right behind it */
+    if (memchr(name, 0, namesize) == NULL && (NAME_POISON(name + namesize, 1) || name[namesize] != 0))
+        sb_puts(b, "!name-not-terminated");
+}
+
 static qhasharr_slot_t *slots_of(void *mem) { return (qhasharr_slot_t *) ((char *) mem + sizeof(qhasharr_data_t)); }
 
 /* bytes of a slot not covered by any field */
@@ -109,7 +137,7 @@ static void walk_text(sb_t *b, qhasharr_t *tbl) {
     int idx = 0; qhasharr_obj_t obj;
     sb_puts(b, "w");
     while (tbl->getnext(tbl, &obj, &idx)) {
-        sb_puts(b, " "); sb_int(b, idx - 1); sb_puts(b, ":"); sb_hex(b, obj.name, obj.namesize);
+        sb_puts(b, " "); sb_int(b, idx - 1); sb_puts(b, ":"); sb_name(b, obj.name, obj.namesize);
         sb_puts(b, "="); sb_hex(b, obj.data, obj.datasize);
         free(obj.name); free(obj.data);
     }
@@ -141,9 +169,18 @@ static const char *ename(int e) { return e == EIO ? "EIO" : errname(e); }
 
 static const size_t OFFS[] = {4, 8, 12, 20, 36, 100, 2052, 16, 24, 1028};
 
+/* watchdog: what was printed so far reaches the transcript, then a marker */
+static void watchdog(int sig) {
+    (void) sig;
+    fputs(" !watchdog: the operation did not return in time\n", stdout);
+    verif_flush_cb();
+    _exit(98);
+}
+
 int main(void) {
     char *line = NULL; size_t cap = 0; ssize_t len;
     harness_init();
+    signal(SIGALRM, watchdog);
     init_padmask();
     region_t R = {0}; qhasharr_t *tbl = NULL; unsigned char *shadow = NULL;
     keys_t ks = {0}; size_t nops = 0;
@@ -152,7 +189,9 @@ int main(void) {
         char *w[MAXW]; int nw = split_words(line, w);
         if (nw == 0) continue;
         const char *op = w[0];
-        alarm(5);                   /* watchdog: no single operation may take longer (endless loops die here) */
+        /* watchdog: no single operation may take longer (endless loops die here); tables of 10^5 slots
+         * (12 MB regions, 24 MB `init` lines) get more on a loaded machine */
+        alarm(!strcmp(op, "init") || R.memsize > (1u << 20) ? 60 : 5);
         res.n = 0; sb_puts(&res, "");
         bool all = false;           /* print every slot */
         if ((nw == 2 || nw == 3) && !strcmp(op, "init")) {
@@ -340,7 +379,7 @@ int main(void) {
         } else if (nw == 2 && !strcmp(op, "next")) {
             int idx = atoi(w[1]); qhasharr_obj_t obj; errno = 0;
             if (tbl->getnext(tbl, &obj, &idx)) {
-                sb_puts(&res, "obj "); sb_int(&res, idx); sb_puts(&res, " "); sb_hex(&res, obj.name, obj.namesize);
+                sb_puts(&res, "obj "); sb_int(&res, idx); sb_puts(&res, " "); sb_name(&res, obj.name, obj.namesize);
                 sb_puts(&res, " "); sb_hex(&res, obj.data, obj.datasize);
                 free(obj.name); free(obj.data);
             } else { sb_puts(&res, "end "); sb_int(&res, idx); sb_puts(&res, " "); sb_puts(&res, errname(errno)); }
@@ -350,7 +389,7 @@ int main(void) {
             int idx = 0; qhasharr_obj_t obj;
             sb_puts(&res, "walkrm");
             while (tbl->getnext(tbl, &obj, &idx)) {
-                sb_puts(&res, " "); sb_int(&res, idx - 1); sb_puts(&res, ":"); sb_hex(&res, obj.name, obj.namesize); sb_puts(&res, ":");
+                sb_puts(&res, " "); sb_int(&res, idx - 1); sb_puts(&res, ":"); sb_name(&res, obj.name, obj.namesize); sb_puts(&res, ":");
                 if (m > 0 && j % m == r) {
                     idx--; errno = 0;
                     bool ok = tbl->remove_by_idx(tbl, idx);
@@ -367,39 +406,56 @@ int main(void) {
         int maxslots = hdr->maxslots;
         size_t nslots = (R.memsize - sizeof(qhasharr_data_t)) / sizeof(qhasharr_slot_t);
         bool g1 = guards_ok(&R), g2 = true, g3 = true;
-        for (size_t i = 0; i < nslots; i++)
-            for (size_t b = 0; b < sizeof(qhasharr_slot_t); b++)
-                if (padmask[b] && ((unsigned char *) &sl[i])[b] != 0) g2 = false;
         for (size_t o = sizeof(qhasharr_data_t) + nslots * sizeof(qhasharr_slot_t); o < R.memsize; o++)
             if (R.mem[o] != 0) g3 = false;
-        /* (2) header + changed slots */
+        /* (2) header + changed slots; the padding bytes of every changed slot (after `init`: of every
+         * slot) must be zero - unchanged slots were checked when they last changed. The region is
+         * compared in chunks of 64 slots first (tables of 10^5 slots). */
         fputs(res.p, stdout);
         printf(" | h %d %d %d | d", hdr->maxslots, hdr->usedslots, hdr->num);
-        for (size_t i = 0; i < nslots; i++) {
-            size_t o = sizeof(qhasharr_data_t) + i * sizeof(qhasharr_slot_t);
-            if (all || memcmp(shadow + o, R.mem + o, sizeof(qhasharr_slot_t)) != 0) {
-                printf(" %zu=%d,%u,%u,%d,", i, (int) sl[i].count, (unsigned) sl[i].hash, (unsigned) sl[i].datasize, sl[i].link);
-                puthex(stdout, &sl[i].data, sizeof(sl[i].data));
+        for (size_t c0 = 0; c0 < nslots; c0 += 64) {
+            size_t c1 = c0 + 64 < nslots ? c0 + 64 : nslots;
+            size_t co = sizeof(qhasharr_data_t) + c0 * sizeof(qhasharr_slot_t);
+            if (!all && memcmp(shadow + co, R.mem + co, (c1 - c0) * sizeof(qhasharr_slot_t)) == 0) continue;
+            for (size_t i = c0; i < c1; i++) {
+                size_t o = sizeof(qhasharr_data_t) + i * sizeof(qhasharr_slot_t);
+                if (all || memcmp(shadow + o, R.mem + o, sizeof(qhasharr_slot_t)) != 0) {
+                    for (size_t b = 0; b < sizeof(qhasharr_slot_t); b++)
+                        if (padmask[b] && ((unsigned char *) &sl[i])[b] != 0) g2 = false;
+                    printf(" %zu=%d,%u,%u,%d,", i, (int) sl[i].count, (unsigned) sl[i].hash, (unsigned) sl[i].datasize, sl[i].link);
+                    puthex(stdout, &sl[i].data, sizeof(sl[i].data));
+                    memcpy(shadow + o, R.mem + o, sizeof(qhasharr_slot_t));
+                }
             }
         }
-        memcpy(shadow, R.mem, R.memsize);
-        /* (3) observations through the original and through a relocated byte copy */
-        to.n = 0; sb_puts(&to, ""); obs_text(&to, tbl, &ks);
-        size_t coff = OFFS[nops % (sizeof OFFS / sizeof OFFS[0])];
-        if (coff == R.off) coff += 4;                     /* never the same offset as the original */
-        region_t C = region_new(R.memsize, coff);
-        memcpy(C.mem, R.mem, R.memsize);
-        qhasharr_t *tbl2 = qhasharr(C.mem, 0);
-        tc.n = 0; sb_puts(&tc, ""); obs_text(&tc, tbl2, &ks);
-        if (!guards_ok(&C) || memcmp(C.mem, R.mem, R.memsize) != 0 || memcmp(shadow, R.mem, R.memsize) != 0) g1 = false;
+        memcpy(shadow, R.mem, sizeof(qhasharr_data_t));     /* header; the tail must stay zero (g3) */
+        if (all) memcpy(shadow, R.mem, R.memsize);
+        /* (3) observations through the original and through a relocated byte copy. Tables of more than
+         * MIDSLOTS slots: after init / walk / size and every 4th (above HUGESLOTS: 256th) operation */
+        bool full = nslots <= MIDSLOTS || all || !strcmp(op, "walk") || !strcmp(op, "size") ||
+                    (nslots <= HUGESLOTS ? nops % 4 == 3 : nops % 256 == 255);
+        region_t C = {0}; qhasharr_t *tbl2 = NULL;
+        if (full) {
+            to.n = 0; sb_puts(&to, ""); obs_text(&to, tbl, &ks);
+            size_t coff = OFFS[nops % (sizeof OFFS / sizeof OFFS[0])];
+            if (coff == R.off) coff += 4;                     /* never the same offset as the original */
+            C = region_new(R.memsize, coff);
+            memcpy(C.mem, R.mem, R.memsize);
+            tbl2 = qhasharr(C.mem, 0);
+            tc.n = 0; sb_puts(&tc, ""); obs_text(&tc, tbl2, &ks);
+            if (!guards_ok(&C) || memcmp(C.mem, R.mem, R.memsize) != 0 || memcmp(shadow, R.mem, R.memsize) != 0) g1 = false;
+        }
         printf(" | g %d%d%d | ", g1, g2, g3);
-        if (maxslots <= SMALLCAP) printf("o[%s] c[%s]", to.p, tc.p);
+        if (!full) printf("o - c -");
+        else if (maxslots <= SMALLCAP) printf("o[%s] c[%s]", to.p, tc.p);
         else printf("o %016llx c %016llx", fnv64(to.p, to.n), fnv64(tc.p, tc.n));
         printf("\n");
         alarm(0);
         nops++;
         /* (4) every 32nd operation the history continues through the copy */
-        if (nops % 32 == 0) {
+        if (!full) {
+            /* no copy was made */
+        } else if (nops % 32 == 0) {
             tbl->free(tbl); region_free(&R);
             tbl = tbl2; R = C;
         } else {
